@@ -1,28 +1,36 @@
 """C39 read-only and closed EKOs never change on disk (X-hist).
 
-BFS over histories of read and write attempts on the real EKO object from three initial
-states (opened read-only; closed after an edit session; closed after a read-only session).
+BFS over histories of read and write attempts on the real EKO object from seven initial
+states (opened read-only: from the archive, into a caller-supplied directory, from an already
+extracted directory; closed: after an edit session, after a read-only session, after the
+creating session, and after an edit session whose working directory exists again).
 Oracle after every step: every mutating attempt raised, and the SHA-256 of the archive is the
 one taken before the session; the same after the session is ended.
 """
 
 import hashlib
 import os
+import pathlib
 import shutil
+import tarfile
 
 import numpy as np
 
-from vf.core import cards, hist
-from vf.core.ctx import Result
+from vf.core import cards
+from vf.core.ctx import Result, HarnessError
 
 ID = "C39"
 LEVEL = "model_checking"
 TECHNIQUE = "explicit-state BFS over read/write-attempt histories on the real EKO; invariant: archive hash unchanged, every write attempt raises"
 LEVEL_TEXT = (
-    "all histories up to the depth bound over 22 operations from 3 initial states are executed on the "
-    "real object; the archive's SHA-256 is compared after every step and after the session"
+    "all histories up to the depth bound over 28 operations from 7 initial states are executed on the "
+    "real object; the archive's SHA-256 (for an EKO opened from a directory: the hash of the directory tree) "
+    "is compared after every step and after the session"
 )
-LEVEL_NOTE = "bounded depth (quick 3, thorough 5); one archive content; trusted: hashlib, the op classification (mutating / not)"
+LEVEL_NOTE = (
+    "bounded depth (quick 3, thorough 5); one archive content; trusted: hashlib, the op classification (mutating / not); "
+    "'raises an error' = any exception (the class is recorded in the outcome, not judged)"
+)
 FLOOR_NONTRIVIAL = 30
 
 EP0 = (9.0, 4)
@@ -40,16 +48,44 @@ MUTATING = {
     "parts_set",
     "parts_matching_set",
     "setitem_operators",
+    # the documented manual store of metadata (metadata.py: "a call to update has to be performed manually")
+    "metadata_update",
 }
-OPS = sorted(MUTATING) + ["get", "with_operator", "read_recipes", "read_part", "list", "items", "unload", "del_operators", "dump", "close", "exit"]
-INITS = ["ro_open", "closed_after_rw", "closed_after_ro"]
+# explicit dumps / copies: need not raise, but the own archive must keep its bytes
+DUMPS = ["dump", "dump_own_path", "dump_elsewhere", "deepcopy_own_path", "metadata_update+dump_own_path"]
+OPS = sorted(MUTATING) + ["get", "with_operator", "read_recipes", "read_part", "list", "items", "unload", "del_operators"] + DUMPS + ["close", "exit"]
+INITS = ["ro_open", "closed_after_rw", "closed_after_ro", "closed_after_create", "ro_open_dest", "ro_dir", "closed_dir_recreated"]
+# operations added after the audit get a signature that names the call site (one defect = one site x access state x clause)
+SITE = {
+    "metadata_update": "Metadata.update",
+    "dump_own_path": "EKO.dump(own path)",
+    "dump_elsewhere": "EKO.dump(other path)",
+    "deepcopy_own_path": "EKO.deepcopy(own path)",
+    # the two unguarded sites in sequence (whether or not the first one raised): the way a read-only session rewrites its archive
+    "metadata_update+dump_own_path": "Metadata.update+EKO.dump(own path)",
+}
 
 
 def _sha(p):
     return hashlib.sha256(open(p, "rb").read()).hexdigest()
 
 
+def _tree_sha(d):
+    """Hash of a directory tree (relative names + file bytes); 'gone' if the directory does not exist."""
+    d = pathlib.Path(d)
+    if not d.is_dir():
+        return "gone"
+    h = hashlib.sha256()
+    for f in sorted(d.rglob("*")):
+        h.update(str(f.relative_to(d)).encode() + b"\0")
+        if f.is_file():
+            h.update(f.read_bytes())
+        h.update(b"\1")
+    return h.hexdigest()
+
+
 def _mk_archive(path):
+    """Create the archive in a real session; returns the (now closed) object that session held."""
     from eko.io.items import Operator
     from eko.io.struct import EKO
 
@@ -63,6 +99,25 @@ def _mk_archive(path):
         # recipes and a part that already exist in the archive (stores of *known* headers must raise as well)
         e.load_recipes([Evolution(4.0, 9.0, 4), Matching(9.0, 5, False)])
         e.parts[Evolution(4.0, 9.0, 4)] = Operator(a)
+    return e
+
+
+_TEMPLATE = []
+
+
+def _template():
+    """Bytes of the archive, created once per process by a real session (every case works on its own copy)."""
+    if not _TEMPLATE:
+        p = cards.scratch_path("c39-template")
+        _mk_archive(p)
+        _TEMPLATE.append(p.read_bytes())
+        os.unlink(p)
+    return _TEMPLATE[0]
+
+
+def _extract(archive, d):
+    with tarfile.open(archive) as tar:
+        tar.extractall(d, filter="fully_trusted")
 
 
 def _apply(e, name):
@@ -114,8 +169,28 @@ def _apply(e, name):
             e.unload()
         elif name == "del_operators":
             del e.operators
+        elif name == "metadata_update":
+            e.metadata.origin = (123.0, 3)
+            e.metadata.update()
         elif name == "dump":
             e.dump()
+        elif name == "dump_own_path":
+            e.dump(e.access.path)
+        elif name == "dump_elsewhere":
+            other = pathlib.Path(str(e.metadata._path) + "-elsewhere.tar")
+            try:
+                e.dump(other)
+            finally:
+                other.unlink(missing_ok=True)
+        elif name == "deepcopy_own_path":
+            e.deepcopy(e.access.path)
+        elif name == "metadata_update+dump_own_path":
+            e.metadata.origin = (123.0, 3)
+            try:
+                e.metadata.update()
+            except Exception:  # noqa  (judged by the operation "metadata_update")
+                pass
+            e.dump(e.access.path)
         elif name == "close":
             e.close()
         elif name == "exit":
@@ -134,12 +209,24 @@ def evaluate(case):
     h = case["history"]
     op = case["op"]
     path = cards.scratch_path("c39")
-    _mk_archive(path)
+    dest = pathlib.Path(str(path)[:-4] + "-dir")
     res = Result()
-    tmpdirs = []
+    tmpdirs = [dest]
     try:
+        if init == "closed_after_create":
+            # the object a creating session leaves behind (what `eko.solve` users may still hold)
+            e = _mk_archive(path)
+        else:
+            path.write_bytes(_template())
         if init == "ro_open":
             e = EKO.read(path)
+        elif init == "ro_open_dest":
+            dest.mkdir()
+            e = EKO.read(path, dest=dest)
+        elif init == "ro_dir":
+            # opened from an already extracted directory: no archive file; the directory is the permanent object
+            _extract(path, dest)
+            e = EKO.read(dest, extract=False)
         elif init == "closed_after_rw":
             e = EKO.edit(path)
             tmpdirs.append(e.metadata.path)
@@ -147,43 +234,63 @@ def evaluate(case):
             _apply(e, "read_part")
             _apply(e, "get")
             e.close()
-        else:
+        elif init == "closed_dir_recreated":
+            # closed after an edit session in a caller-supplied directory, and that directory exists again
+            # (re-used for the next session): a refusal must not depend on the working directory being gone
+            dest.mkdir()
+            e = EKO.edit(path, dest=dest)
+            _apply(e, "get")
+            e.close()
+            _extract(path, dest)
+        elif init == "closed_after_ro":
             e = EKO.read(path)
             tmpdirs.append(e.metadata.path)
             e.close()
         tmpdirs.append(e.metadata.path)
-        sha0 = _sha(path)
+        # the permanent object whose bytes must not change
+        if init == "ro_dir":
+            exists, sha = (lambda: dest.is_dir()), (lambda: _tree_sha(dest))
+        else:
+            exists, sha = (lambda: os.path.exists(path)), (lambda: _sha(path))
+        sha0 = sha()
         seq = list(h) + [op]
         for i, name in enumerate(seq):
             was_open, ro = e.access.open, e.access.readonly
             got = _apply(e, name)
             full = f"init={init} history={seq[: i + 1]}"
+            st = "closed" if not was_open else "ro"
+            # signatures: historical form for the original alphabet, call-site form for the added operations
+            pre = f"{SITE[name]}/{st}" if name in SITE else None
+            if name == "metadata_update+dump_own_path" and st == "closed":
+                # Metadata.update cannot reach the archive of a closed EKO: what happens to it is the dump's doing
+                pre = f"{SITE['dump_own_path']}/{st}"
             if i == len(seq) - 1:
                 if name in MUTATING and got[0] != "raises":
-                    res.fail(f"EKO/{init}/{name}/no-error", f"{full}: write attempt on {'closed' if not was_open else 'read-only'} EKO did not raise")
-                if not os.path.exists(path):
-                    res.fail(f"EKO/{'closed' if not was_open else 'ro'}/{name}/archive-removed", f"{full}: archive does not exist any more (observation {got})")
+                    res.fail(f"{pre}/no-error" if pre else f"EKO/{init}/{name}/no-error", f"{full}: write attempt on {'closed' if not was_open else 'read-only'} EKO did not raise")
+                if not exists():
+                    res.fail(f"{pre}/archive-removed" if pre else f"EKO/{st}/{name}/archive-removed", f"{full}: archive does not exist any more (observation {got})")
                     break
-                if _sha(path) != sha0:
-                    res.fail(f"EKO/{'closed' if not was_open else 'ro'}/{name}/archive-changed", f"{full}: archive bytes changed (observation {got})")
+                if sha() != sha0:
+                    res.fail(f"{pre}/archive-changed" if pre else f"EKO/{st}/{name}/archive-changed", f"{full}: archive bytes changed (observation {got})")
                     break
-            elif not os.path.exists(path):
+            elif not exists():
                 break
-        # end of session
-        if not res.fails:
-            if e.access.open:
-                g = _apply(e, "close")
-            if not os.path.exists(path) or _sha(path) != sha0:
-                res.fail(f"EKO/{init}/session-end/archive-changed", f"init={init} history={seq}: archive differs after the session was ended")
+        # canonical key of the state reached (taken BEFORE the session is ended: open and closed states differ)
         md = e.metadata._path
         d = sorted(os.listdir(md)) if md is not None and os.path.isdir(md) else "gone"
         cache = sorted((str(t), v is not None) for t, v in e.operators.cache.items())
         cache += sorted(("r" + str(t), v is not None) for t, v in e.recipes.cache.items())
         cache += sorted(("rm" + str(t), v is not None) for t, v in e.recipes_matching.cache.items())
         cache += sorted(("p" + str(t), v is not None) for t, v in e.parts.cache.items())
-        res.info = {"state": repr((init, e.access.open, e.access.readonly, d if d == "gone" else len(d), cache, str(e.metadata.xgrid.raw.tolist())))}
-        res.outcome = f"{op}:{got[0]}:{'open' if was_open else 'closed'}"
-        res.nontrivial = op in MUTATING or op in ("close", "dump", "exit")
+        res.info = {"state": repr((init, e.access.open, e.access.readonly, d if d == "gone" else len(d), cache, str(e.metadata.xgrid.raw.tolist()), str(tuple(e.metadata.origin))))}
+        # end of session
+        if not res.fails:
+            if e.access.open and init != "ro_dir":
+                g = _apply(e, "close")
+            if not exists() or sha() != sha0:
+                res.fail(f"EKO/{init}/session-end/archive-changed", f"init={init} history={seq}: archive differs after the session was ended")
+        res.outcome = f"{op}:{got[0]}:{'open' if was_open else 'closed'}" + (f":{got[1]}" if got[0] == "raises" else "")
+        res.nontrivial = op in MUTATING or op in DUMPS or op in ("close", "exit")
         return res
     finally:
         for t in tmpdirs:
@@ -194,13 +301,62 @@ def evaluate(case):
             pass
 
 
+def _ops_for(init):
+    # an EKO opened from a directory has no archive file: its close() removes that directory by design
+    # ("remove the temporary directory used"), which the statement (archive *file*) does not speak about
+    return [o for o in OPS if not (init == "ro_dir" and o == "close")]
+
+
+def _bfs(ctx, depth):
+    """vf.core.hist.bfs for all initial states at once (one batch of cases per depth instead of one per depth and initial state).
+
+    Same rules: a state is represented by the first history (canonical order) that reaches its key; failing histories are
+    reported, not extended; the key contains the initial state, so the searches of the initial states stay separate."""
+    seen = {init: {f"<{init}>"} for init in INITS}
+    frontier = {init: [[]] for init in INITS}
+    transitions = completed = 0
+    for d in range(1, depth + 1):
+        cases = [{"history": h, "op": op, "init": init} for init in INITS for h in frontier[init] for op in _ops_for(init)]
+        if not cases:
+            break
+        results = ctx.run_cases(cases, evaluate)
+        results.sort(key=lambda r: repr((r[0]["init"], r[0]["history"], r[0]["op"])))
+        new = {init: [] for init in INITS}
+        for case, (outcome, fails, nt, info, tb) in results:
+            transitions += 1
+            if fails:
+                continue
+            if not isinstance(info, dict) or "state" not in info:
+                raise HarnessError("C39: evaluate must return info['state']")
+            if info["state"] not in seen[case["init"]]:
+                seen[case["init"]].add(info["state"])
+                new[case["init"]].append(case["history"] + [case["op"]])
+        completed = d
+        frontier = new
+    ctx.extra.update(
+        states=sum(len(v) for v in seen.values()),
+        states_per_initial_state={k: len(v) for k, v in seen.items()},
+        transitions=transitions,
+        traces_validated_against_impl=transitions,
+        max_depth_completed=completed,
+        frontier_at_bound=sum(len(v) for v in frontier.values()),
+    )
+
+
 def run(ctx):
     depth = 5 if ctx.thorough() else 3
-    for init in INITS:
-        hist.bfs(ctx, OPS, evaluate, depth, init_key=f"<{init}>", extra_case={"init": init})
+    _template()  # built once, before the workers are forked
+    _bfs(ctx, depth)
     ctx.rule = (
-        f"BFS over histories of length <= {depth} of {len(OPS)} operations (12 write attempts on operators, "
-        "metadata, recipes and parts; reads, unload, dump, close, context exit) from 3 initial states "
-        "(read-only open, closed after edit, closed after read-only); non-trivial = last op is a write attempt, dump, close or exit"
+        f"BFS over histories of length <= {depth} of {len(OPS)} operations (13 write attempts on operators, "
+        "metadata (EKO.update, xgrid setter, Metadata.update), recipes and parts; reads, unload; dump to the default archive, "
+        "to the own path given explicitly, to another path, deepcopy onto the own path, Metadata.update followed by a dump to the own path; close, context exit) from "
+        f"{len(INITS)} initial states (read-only open from the archive / into a caller-supplied directory / from an extracted "
+        "directory (no close there; the directory tree is hashed); closed after edit, after read-only, after the creating "
+        "session, after an edit session whose working directory has been re-populated); "
+        "non-trivial = last op is a write attempt, a dump/copy, close or exit"
     )
-    ctx.assumptions += ["state key = (initial state, open, readonly, temp dir present, cache flags, in-memory xgrid)"]
+    ctx.assumptions += [
+        "state key = (initial state, open, readonly, temp dir present, cache flags, in-memory xgrid, in-memory origin)",
+        "'raises an error' is any exception; its class is part of the recorded outcome only",
+    ]
